@@ -297,7 +297,87 @@ def check_C17(tier, seed):
     return res.finish()
 
 
-CHECKS = {"C16": check_C16, "C15": check_C15, "C17": check_C17}
+# =============================================================== C14
+def check_C14(tier, seed):
+    res = Result("C14", tier, seed)
+    cases = os.path.join(BUILD, "c14.%d.txt" % os.getpid())
+    mm = cases + ".mm"
+    try:
+        with vlib.Lock():
+            okb, blog, exe = vlib.go_build("natsdiff", "natsdiff")
+            gen_ok = prove(res, [], "Props/C14.v")
+            flavour = oracles(res, True)
+        if not okb:
+            res.tie_broken.append("natsdiff does not build against /repo: " + blog[-800:])
+            return res.finish()
+        runs = [["-seed", str(seed), "-seqs", "150" if tier == "quick" else "1500", "-out", cases]]
+        if tier == "thorough":
+            runs.append(["-seed", str(seed + 1), "-seqs", "60", "-expiry", "-out", cases + ".x"])
+            runs.append(["-seed", str(seed + 2), "-seqs", "400", "-nopace", "-out", cases + ".n"])
+        total = {"cases": 0, "ops": 0, "classes": {}}
+        summaries = []
+        for args in runs:
+            rc, out = vlib.run([exe] + args, timeout=3000)
+            lines = out.strip().split("\n")
+            summaries.append(lines[-1][:600] if lines else "")
+            mism = [l for l in lines if l.startswith("MISMATCH")]
+            timing = [l for l in lines if l.startswith("TIMING")]
+            if mism:
+                res.violations.append(("the adapter against a real JetStream bucket departs from the store contract: " + mism[0][:300],
+                                       {"property": "C14", "kind": "adapter-vs-reference-store", "natsdiff_args": args, "mismatches": mism[:10],
+                                        "replay": "cd /verif/harness && go build -tags verif -o /tmp/natsdiff ./natsdiff && /tmp/natsdiff " + " ".join(args[:-2])}))
+            elif rc != 0 and not timing:
+                res.tie_broken.append("natsdiff failed: " + out[-600:])
+            elif timing:
+                summaries.append("inconclusive expiry timing on a loaded machine (ignored): " + timing[0][:200])
+            path = args[-1]
+            if os.path.exists(path) and flavour:
+                rc2, so, se = vlib.oracle(["c14", path, mm], flavour)
+                try:
+                    summ = json.loads(so)
+                except Exception:
+                    res.tie_broken.append("oracle failed: " + (so + se)[-500:])
+                    continue
+                total["cases"] += summ["cases"]
+                total["ops"] += summ["ops"]
+                for k, v in summ["classes"].items():
+                    total["classes"][k] = total["classes"].get(k, 0) + v
+                if summ.get("spec_violation", 0) > 0:
+                    first = [l for l in open(mm).read().split("\n") if l.startswith("SPEC ")][:1]
+                    body, _, why = (first[0] if first else " | ?").partition(" | ")
+                    res.violations.append(("the adapter's outcome differs from the contract Store.v: " + why[:300],
+                                           {"property": "C14", "kind": "adapter-vs-Store.v", "sequence": body[:3000], "why": why,
+                                            "natsdiff_args": args}))
+        res.coverage.update({
+            "evaluations": total["cases"],
+            "operations": total["ops"],
+            "distinct_nontrivial": len(total["classes"]),
+            "classes": total["classes"],
+            "traces_validated_against_impl": total["cases"],
+            "natsdiff_summaries": summaries,
+            "rule": "seeded random sequences of Create/Update(latest, stale, future, 0, tombstone revision)/Get/Delete/Watch open-drain-stop on one or two "
+                    "interleaved keys, run through the library's adapter against an embedded nats-server, against the Go reference store (natsdiff) and "
+                    "against the extracted Store.v (oracle); thorough adds real-time bucket-TTL expiry and unpaced (conflating) watch runs; "
+                    "distinct_nontrivial = distinct (operation, outcome) classes reached",
+            "exhaustive": False,
+            "samples": sample_lines(cases, k=8, step=37),
+        })
+        res.assumptions = ["nats-server v2.12.2 / nats.go v1.47.0 themselves are trusted (black box)",
+                           "watch clause: with history 1 the SERVER conflates revisions that are overwritten before its consumer delivers them (measured by the "
+                           "sub-agent: lossy only under heavy concurrent load); the exactly-once theorem and the paced runs assume the consumer keeps up; "
+                           "unpaced runs check that every loss is a legal conflation (never the newest revision)",
+                           "operations of one sequence are sequential on one connection (Create's three-round-trip non-atomicity over a tombstone under "
+                           "concurrent writers is documented from nats.go source, not exercised)"]
+        return res.finish()
+    finally:
+        for p in (cases, mm, cases + ".x", cases + ".n"):
+            try:
+                os.remove(p)
+            except OSError:
+                pass
+
+
+CHECKS = {"C16": check_C16, "C15": check_C15, "C17": check_C17, "C14": check_C14}
 
 
 def replay(pid, path):
